@@ -1,4 +1,5 @@
 import GrolProofs.LexNext
+import GrolProofs.LexString
 import Grol.LexSuite
 /-
 C16 — the lexer is lossless: tokens tile the input.
@@ -14,7 +15,7 @@ token/token.go by the `lex` correspondence suite, which also evaluates the execu
 token i+1 *is* the end of token i.
 -/
 namespace Grol.Lexer
-open Grol.Token Grol.Token.TType
+open Grol.Token Grol.Token.TType Grol.LexSuite
 
 /-- where the token returned by `next s` starts -/
 def start (s : State) : Nat := (skipWhitespace s).pos
@@ -649,6 +650,90 @@ theorem C16.interning_lexer (s : State) (k : Nat) (ext : Table) (i j : Nat) (hi 
   have hj' : j < ts.length := by simp [ts]; exact hj
   have := C16.interning ts wf ext i j hi' hj'
   simpa [ts] using this
+
+/-! ### (3b') string literal = unescape(content) -/
+
+/-- `NextToken` on a quote: the `case '"', '`'` branch -/
+theorem nextCore_quote (s1 : State) (q : UInt8) (hq : q = 34 ∨ q = 96) (h : peekAt s1.input s1.pos = q) :
+    nextCore s1 =
+      (if (!(readString { s1 with pos := s1.pos + 1 } q).2.1) = true then
+        ((readString { s1 with pos := s1.pos + 1 } q).2.2.eolEof,
+          { (readString { s1 with pos := s1.pos + 1 } q).2.2 with
+            pos := (readString { s1 with pos := s1.pos + 1 } q).2.2.pos - 1 })
+      else (internTok STRING (readString { s1 with pos := s1.pos + 1 } q).1,
+          (readString { s1 with pos := s1.pos + 1 } q).2.2)) := by
+  unfold nextCore nextSwitch
+  simp only [State.readChar, State.peekChar, h]
+  rcases hq with rfl | rfl <;> rfl
+
+/-- (3b') string literal = unescape(content), by proof: for a STRING token the statement's own
+decoder, run exactly as `LexSuite.checkTok` runs it (same quote, same fuel, same bytes), returns
+the token's literal and the token's length after the opening quote -/
+theorem C16.string_literal (s : State) (h1 : (next s).1.src = .intern) (h2 : (next s).1.type = STRING) :
+    specString (peekAt s.input (start s) == 34) (peekAt s.input (start s)) (s.input.size + 1)
+        ((s.input.extract (start s + 1) s.input.size).toList)
+      = some ((next s).1.lit, (next s).2.pos - start s - 1) := by
+  have sp := C16.string_span s h1 h2
+  have sk := skipWhitespace_spec s
+  have hq : peekAt (skipWhitespace s).input (skipWhitespace s).pos = peekAt s.input (start s) := by
+    rw [sk.input]; rfl
+  obtain ⟨S, hS⟩ : ∃ S : State, S = { skipWhitespace s with pos := (skipWhitespace s).pos + 1 } := ⟨_, rfl⟩
+  have hSi : S.input = s.input := by rw [hS]; exact sk.input
+  have hSp : S.pos = start s + 1 := by rw [hS]; rfl
+  have e := nextCore_quote (skipWhitespace s) _ sp.2.2.1 hq
+  rw [← hS] at e
+  have ag := readString_eq_spec S _ sp.2.2.1 (by omega)
+  rw [hSi, hSp] at ag
+  have e' : next s = nextCore (skipWhitespace s) := rfl
+  rw [e'] at h1 h2 ⊢
+  rw [e] at h1 h2 ⊢
+  show specString _ _ _ (restL s.input (start s + 1)) = _
+  generalize specString (peekAt s.input (start s) == 34) (peekAt s.input (start s)) (s.input.size + 1)
+    (restL s.input (start s + 1)) = o at ag ⊢
+  cases o with
+  | none =>
+    unfold Agree at ag
+    simp only [] at ag
+    rw [ag] at h1
+    simp [State.eolEof, eolEof] at h1
+  | some vm =>
+    obtain ⟨v, m⟩ := vm
+    unfold Agree at ag
+    simp only [] at ag
+    rw [ag]
+    simp only [Bool.not_true, Bool.false_eq_true, ↓reduceIte, internTok]
+    congr 2
+    rw [hSp]; omega
+
+/-- … and where the lexer returns the end marker on a quote, that decoder says "not terminated"
+(the `checkMarker` clause of the executable statement) -/
+theorem C16.unterminated_string (s : State) (hm : isMarker (next s).1)
+    (hq : peekAt s.input (start s) = 34 ∨ peekAt s.input (start s) = 96) :
+    specString (peekAt s.input (start s) == 34) (peekAt s.input (start s)) (s.input.size + 1)
+        ((s.input.extract (start s + 1) s.input.size).toList) = none := by
+  have sk := skipWhitespace_spec s
+  have hq' : peekAt (skipWhitespace s).input (skipWhitespace s).pos = peekAt s.input (start s) := by
+    rw [sk.input]; rfl
+  obtain ⟨S, hS⟩ : ∃ S : State, S = { skipWhitespace s with pos := (skipWhitespace s).pos + 1 } := ⟨_, rfl⟩
+  have hSi : S.input = s.input := by rw [hS]; exact sk.input
+  have hSp : S.pos = start s + 1 := by rw [hS]; rfl
+  have e := nextCore_quote (skipWhitespace s) _ hq hq'
+  rw [← hS] at e
+  have ag := readString_eq_spec S _ hq (by omega)
+  rw [hSi, hSp] at ag
+  have e' : next s = nextCore (skipWhitespace s) := rfl
+  rw [e', e] at hm
+  show specString _ _ _ (restL s.input (start s + 1)) = _
+  generalize specString (peekAt s.input (start s) == 34) (peekAt s.input (start s)) (s.input.size + 1)
+    (restL s.input (start s + 1)) = o at ag ⊢
+  cases o with
+  | none => rfl
+  | some vm =>
+    obtain ⟨v, m⟩ := vm
+    unfold Agree at ag
+    simp only [] at ag
+    rw [ag] at hm
+    simp [isMarker, internTok] at hm
 
 /-! ### non-vacuity: the three repaired inputs, evaluated by the kernel -/
 
